@@ -1,7 +1,7 @@
 (* C04 — SML print -> parse round trip (partial: the literal level is proved,
    the token and character levels are decided by correspondence and monitors). *)
 From Secs Require Import Ast FloatProofs Fill Msg WireSpec WireLemmas WireValues HeaderProofs WireEnc WireDec MsgProofs AstProofs FillProofs FillCompose.
-From Secs Require Import PrintProofs Lexer Parser SmlNumbers SmlProofs LexProofs ParseProofs OffsetProofs TokenProofs AsciiTokens TokenTrees LexPrinted AsciiLex LexTrees MsgRoundTrip.
+From Secs Require Import PrintProofs Lexer Parser SmlNumbers SmlProofs LexProofs ParseProofs OffsetProofs TokenProofs AsciiTokens TokenTrees LexPrinted AsciiLex LexTrees MsgRoundTrip CaseProofs LexNames NameLex Converse.
 Open Scope Z_scope.
 
 (* integers are printed in decimal (FormatInt); scanning the printed form gives the value back *)
@@ -139,6 +139,66 @@ Proof. exact print_parse_example. Qed.
 Theorem C04_text : forall fl ms, msgs_text fl ms = flat_map (fun m => render fl (msg_print m) ++ [x0a]) ms.
 Proof. reflexivity. Qed.
 
+(* THE CONVERSE DIRECTION.  Every message sml.Parse returns — from any text
+   whatever — lies in the printable sub-grammar: its item is `printable`, its
+   ellipses are numbered from 0 as the parser numbers them, every variable name
+   in it is one the lexer reads back as that variable (sml_var), and its name is
+   read back as one name (name_lexes): proved by following the parser through
+   every branch under "no error was added", and the lexer through every step
+   (variable tokens: LexNames.v; name tokens, including names with invalid or
+   truncated UTF-8 in them: NameLex.v). *)
+Theorem C04_parsed_is_printable : forall alnum floats input, floats_wf floats ->
+  Forall (sml_msg0 sml_var (name_lexes alnum)) (r_msgs (sml_parse alnum floats input)).
+Proof. exact parsed_messages_printable. Qed.
+Print Assumptions C04_parsed_is_printable.
+
+(* hence, at token level: from the tokens of the printed form of a returned
+   message the parser rebuilds that message *)
+Theorem C04_fixed_point_tokens : forall alnum floats fl input m st rest, floats_wf floats ->
+  In m (r_msgs (sml_parse alnum floats input)) ->
+  (m_item m = IEmpty \/ scans floats fl (m_item m)) ->
+  toks st = msg_tokens fl m ++ rest ->
+  exists st', parse_message floats st = (true, st') /\ toks st' = rest /\ errs st' = errs st /\ warns st' = warns st /\
+              msgs st' = msgs st ++ [m] /\ crashed st' = crashed st.
+Proof. exact printed_tokens_parse_back. Qed.
+Print Assumptions C04_fixed_point_tokens.
+
+(* and at character level: for every text sml.Parse accepts, printing the
+   returned messages and parsing the printed text returns exactly those
+   messages, no error, no warning: the printed form is a fixed point.  The only
+   hypotheses concern the two float oracles on the float values that occur
+   (`scans`: ParseFloat of FormatFloat's text gives the value back; `floats_lex`:
+   that text is lexed as one number); floats_wf says the ParseFloat oracle hands
+   out 32- and 64-bit patterns. *)
+Theorem C04_fixed_point : forall alnum floats fl input, floats_wf floats ->
+  let ms := r_msgs (sml_parse alnum floats input) in
+  Forall (fun m => m_item m = IEmpty \/ (scans floats fl (m_item m) /\ floats_lex alnum fl (m_item m))) ms ->
+  let r := sml_parse alnum floats (msgs_text fl ms) in
+  r_msgs r = ms /\ r_errs r = [] /\ r_warns r = [] /\ r_crashed r = false.
+Proof. exact printed_form_is_fixed_point. Qed.
+Print Assumptions C04_fixed_point.
+
+(* for messages without float values there is no hypothesis left *)
+Theorem C04_fixed_point_no_floats : forall alnum floats fl input, floats_wf floats ->
+  let ms := r_msgs (sml_parse alnum floats input) in
+  Forall (fun m => no_floats (m_item m)) ms ->
+  let r := sml_parse alnum floats (msgs_text fl ms) in
+  r_msgs r = ms /\ r_errs r = [] /\ r_warns r = [] /\ r_crashed r = false.
+Proof. exact printed_form_is_fixed_point_no_floats. Qed.
+Print Assumptions C04_fixed_point_no_floats.
+
+(* the hypotheses are met by an accepted text with variables, an ellipsis, a
+   comment and a second message; the fixed point is computed on it *)
+Example C04_fixed_point_premises :
+  let input := B"S6F11 W H<-E Report // c
+<L <U4 dataid 7> v <L[2] <B 0xff> <A ""hi"" 0x0A>> ...>.
+S1F2 .
+"%string in
+  let r := sml_parse [] [] input in
+  r_errs r = [] /\ length (r_msgs r) = 2%nat /\ Forall (fun m => no_floats (m_item m)) (r_msgs r) /\
+  r_msgs (sml_parse [] [] (msgs_text (fun _ _ => []) (r_msgs r))) = r_msgs r.
+Proof. vm_compute. repeat split; repeat constructor. Qed.
+
 (* Float items are covered under two explicit hypotheses about the two oracles
    (strconv.FormatFloat = fl, strconv.ParseFloat = floats), both part of
    msg_good: [scans] — ParseFloat of the printed text gives the value back, at
@@ -146,7 +206,6 @@ Proof. reflexivity. Qed.
    one number token.  Both oracles are recorded from the library on every run
    and the two hypotheses are monitored on every float the suites print.
 
-   C04_remaining: the converse direction (fixed
-   point of every accepted text) is not proved; it is decided on the library by the monitors of suite C04 (print
-   -> parse -> compare, and the fixed point of every accepted text) and by the
-   correspondence of printer, lexer and parser with the model. *)
+   C04_remaining: the float-oracle hypotheses (strconv is not modelled) are
+   exercised on the library by the monitors of suite C04 (print -> parse ->
+   compare, and the fixed point of every accepted text). *)
